@@ -23,6 +23,11 @@ Fixpoint corr_hist (E : env) (c : cls) (i : Z) (s : inst) (h : list (op * obs)) 
                                             | Some x => opt_eqb pv_eqb (dyn_readable c s1 n lo hi) (Some x)
                                             | None => true
                                             end
+                                        | (n, (DEnumDyn src, _)) =>          (* ... and of an Enum(values='name') *)
+                                            match get (o_after ob) (rname n) with
+                                            | Some x => opt_eqb pv_eqb (dyn_enum_readable c s1 n src) (Some x)
+                                            | None => true
+                                            end
                                         | _ => true
                                         end) c))
       ++ corr_hist E c (i + 1) (o_after ob) r
